@@ -5,6 +5,11 @@ run at Q on the implementation's own response_series rows (whose tie to the recu
 of which runs here too) and compared with pseudo_response_spectra / true_response_spectra / AccSignal.s_d,s_v,s_a /
 the energy spectra / calc_asi / calc_vsi; the property's predicates (non-negative, one entry per period, object >= raw,
 input energy sign) are evaluated on implementation outputs inside Coq.
+
+Source-text ties: Gen_sdof_loop.v (pseudo relations, 6 dt cut; translator/py2coq_sdof_loop.py, shared with C01) and Gen_c03.v
+(sdof.absmax, response_series, calc_resp_uke_spectrum, calc_input_energy_spectrum, im.calc_asi, im.calc_vsi incl. defaults, call
+argument order and the tuple component used; translator/py2coq_c03.py) are regenerated from $EQSIG_REPO on every run and the
+`*_is_source` theorems of Prop_C03 / Prop_C03_source re-proved.
 """
 import math
 import numpy as np
@@ -19,7 +24,15 @@ RULE = ('cases = (function, record, dt, periods (with/without leading 0, on both
         'non-finite outputs are violations; non-trivial = record not identically zero')
 TRUSTED = [
     'Coq 8.16.1 kernel + vm_compute; Interval (one refutation witness)',
-    'hand model coq/model/M_spectra.v (absmax, w = 2*pi/T with placeholder, 6*dt cut, object step rule, np.interp refinement, energy sums); tie = correspondence of this run (model/K_C03.v)',
+    'hand model coq/model/M_spectra.v: w = 2*pi/T with placeholder, 6*dt cut, object step rule, np.interp refinement are tied by the correspondence of this run (model/K_C03.v) '
+    '(+ the scalar readings of Gen_sdof_loop.v); absmax, uke_row, input_energy(_series), spectrum_intensity(_raw) are in addition proved equal, for all inputs, to the definitions '
+    'generated from the source text (Prop_C03_source)',
+    'translator/py2coq_c03.py (Python ast, fail-closed whitelist; grammar of py2coq_numpy.py + np.sum/np.cumsum(axis=1), cumulative_trapezoid without keywords, .max(axis)/.min(axis), scalar '
+    'comparisons, np.where on scalars, `if p is None` defaults, 3-tuple unpacking of the response call): its READINGS are trusted and tied only by the correspondence -- 2-d arrays one row '
+    '(= one period) at a time (axis=1, np.diff last axis, broadcasting of .values, a.max(axis) = row maximum), np.array(periods) = identity on a list, cumulative_trapezoid(y) = '
+    'tl (cumtrapz 1 y), an option None = argument omitted / None; np.arange and the called response functions (nigam_and_jennings_response: C01; pseudo_response_spectra: Gen_sdof_loop + '
+    'correspondence) are INPUT functions of the generated definitions, only the literals / argument order / returned component are tied; calc_vsi is defined twice in im.py (identical '
+    'text), the last definition is translated',
     'response rows given to the Q-model are the implementation\'s own response_series output on the same (possibly refined) record; that function is tied by K_C01 (C01)',
     'object-level factor: dt/target_dt is compared in exact arithmetic; cases whose float quotient is within 1e-9 of an integer are skipped and counted (float rounding of that quotient is C14\'s subject)',
     'translator/py2coq_sdof_loop.py (Python ast, fail-closed, structural location of the statements) for `w = 2 * np.pi / periods`, `svs = w * sds`, `sas = w ** 2 * sds` and `np.where(periods < dt * 6, absmax(motion), sas)`: reads the array statements as scalar statements per period (accepted forms in the header of coq/gen/Gen_sdof_loop.v); the numpy broadcasting / np.where semantics behind that reading is tied by the correspondence',
@@ -80,12 +93,28 @@ def regen_objlayer():
     return None
 
 
+def regen_c03():
+    """re-translate absmax / response_series / calc_resp_uke_spectrum / calc_input_energy_spectrum (eqsig/sdof.py) and calc_asi /
+    calc_vsi (eqsig/im.py) into coq/gen/Gen_c03.v (fail closed): the `*_is_source` theorems of Prop_C03_source are then re-proved
+    against the code that is in the repo now. None or an error message"""
+    import os, sys
+    try:
+        sys.path.insert(0, os.path.join(core.VERIF, 'translator'))
+        import py2coq_c03
+        py2coq_c03.regenerate(repo=core.REPO)
+    except Exception as e:
+        return 'translator/py2coq_c03.py failed: %s: %s' % (type(e).__name__, e)
+    return None
+
+
 def run(rep, rng, tier):
     import eqsig
     from eqsig import sdof
     # the pseudo-spectral lines and the 6 dt cut are re-extracted from the source text on every run (Gen_sdof_loop.v, shared with C01)
     rep.prove('Prop_C03', gen_failed='; '.join(m for m in (c01.regen_loop(), regen_objlayer()) if m) or None)
     rep.prove('Prop_C03_e2e')
+    # absmax, the energy spectra and calc_asi / calc_vsi (bodies, defaults, call wiring) re-extracted from the source text (Gen_c03.v)
+    rep.prove('Prop_C03_source', gen_failed=regen_c03())
     N = 1 if tier == 'quick' else 8
     cases = []
     fragile = 0
@@ -241,11 +270,22 @@ def run(rep, rng, tier):
             rec, dt, periods, xi = np.array([-3.0, 1.0]), 0.1, [0.5, 1.0, 5.0], 0.05
         site = 'sdof.calc_input_energy_spectrum/calc_resp_uke_spectrum'
         args = {'dt': dt, 'xi': xi, 'periods': periods, 'values': list(map(float, rec))}
-        asig = eqsig.AccSignal(rec, dt)
+        # every third case: periods omitted -> the object's response_times; else periods as array / list
+        pmode = ['array', 'default', 'list'][k % 3] if k else 'array'
+        args['periods_passed_as'] = pmode
+        if pmode == 'default':
+            asig = guarded(eqsig.AccSignal, rec, dt, response_times=np.array(periods))
+            if isinstance(asig, ImplError):
+                viol(site, args, asig)
+                continue
+            pkw = {}
+        else:
+            asig = eqsig.AccSignal(rec, dt)
+            pkw = {'periods': np.array(periods) if pmode == 'array' else list(periods)}
         rows = guarded(sdof.response_series, rec, dt, np.array(periods), 0.05 if xi is None else xi)
-        e1 = guarded(sdof.calc_input_energy_spectrum, asig, periods=np.array(periods), xi=xi)
-        e2 = guarded(sdof.calc_input_energy_spectrum, asig, periods=np.array(periods), xi=xi, series=True)
-        e3 = guarded(sdof.calc_resp_uke_spectrum, asig, periods=np.array(periods), xi=xi)
+        e1 = guarded(sdof.calc_input_energy_spectrum, asig, xi=xi, **pkw)
+        e2 = guarded(sdof.calc_input_energy_spectrum, asig, xi=xi, series=True, **pkw)
+        e3 = guarded(sdof.calc_resp_uke_spectrum, asig, xi=xi, **pkw)
         bad = [x for x in (rows, e1, e2, e3) if isinstance(x, ImplError)]
         if bad:
             viol(site, args, bad[0])
@@ -267,14 +307,28 @@ def run(rep, rng, tier):
         rec = record(60)
         dt = rng.choice([0.01, 0.02])
         asig = eqsig.AccSignal(rec, dt)
-        for fn, nm, P, col, g in ((eqsig.im.calc_asi, 'calc_asi', np.arange(0.1, 1.51, 0.01), 2, 9.81), (eqsig.im.calc_vsi, 'calc_vsi', np.arange(0.1, 2.51, 0.01), 1, 1.0)):
-            out = guarded(fn, asig)
-            ps = guarded(sdof.pseudo_response_spectra, rec, dt, P, 0.05)
+        for fn, nm, P, col, g in ((eqsig.im.calc_asi, 'calc_asi', np.arange(0.1, 1.51, 0.01), 2, 9.81), (eqsig.im.calc_vsi, 'calc_vsi', np.arange(0.1, 2.51, 0.01), 1, None)):
             args = {'dt': dt, 'values': list(map(float, rec))}
+            if k % 2 == 0:       # defaults: xi = 0.05 and the function's own period grid
+                xi_, kw = 0.05, {}
+            else:                # explicit xi / periods (keyword and positional)
+                xi_ = [0.02, 0.1][(k // 2) % 2]
+                P = [[0.1, 0.25, 0.5, 1.0, 2.0], [0.3, 0.05, 1.5]][(k // 2) % 2]
+                kw = {'xi': xi_, 'periods': P}
+                args.update(xi=xi_, periods=list(P))
+            out = guarded(fn, asig, **kw)
+            ps = guarded(sdof.pseudo_response_spectra, rec, dt, P, xi_)
             if isinstance(out, ImplError) or isinstance(ps, ImplError):
                 viol('im.' + nm, args, out if isinstance(out, ImplError) else ps)
                 continue
-            add('KIntensity %s %s %s %s' % (q(g), qlist(ps[col]), q(float(out)), q(1e-12)), 'im.' + nm, args, nz=bool(np.any(rec != 0)), impl=float(out))
+            if not finite(out):
+                viol('im.' + nm, args, 'non-finite output %r' % (out,))
+                continue
+            if g is None:
+                coq = 'KIntensityRaw %s %s %s' % (qlist(ps[col]), q(float(out)), q(1e-12))
+            else:
+                coq = 'KIntensity %s %s %s %s' % (q(g), qlist(ps[col]), q(float(out)), q(1e-12))
+            add(coq, 'im.' + nm, args, nz=bool(np.any(rec != 0)), impl=float(out))
     rep.extra['fragile_skipped'] = fragile
     rep.correspond('model.K_C03', 'check_case', cases, max_cases=60, max_bytes=2_500_000, timeout=900)
 
